@@ -118,8 +118,8 @@ def states_for(direction: str) -> list[str]:
 
 
 def cases(tier: str, seed: int) -> list[dict]:
-    n_lists = 5000 if tier == 'quick' else 60000
-    n_crash = 150 if tier == 'quick' else 3000
+    n_lists = 5000 if tier == 'quick' else 200000
+    n_crash = 150 if tier == 'quick' else 9000
     out = []
     for i in range(n_lists // BATCH):
         out.append({'kind': 'lists', 'seed': seed, 'i': i, 'n': BATCH})
